@@ -66,6 +66,16 @@ theorem binary_file_roundtrip (cls : Cls) (tol : Rat) (nt : NumTables) (A : List
     loadContent tol nt (savedContent tol cls A false) false = .ok (cls, entryOp (keptEntries tol A)) := by
   simpa [savedContent] using loadContent_binary (nt := nt) hs hcanon hnodup
 
+/-- the plain-text and the binary format return the same dictionary (same terms, same coefficients) -/
+theorem formats_agree (cls : Cls) (tol : Rat) (A : List Entry) :
+    (normOp tol cls A true).Perm (normOp tol cls A false) := by
+  simpa [normOp] using printed_perm_kept cls tol A
+
+/-- `"name"` and `"name.data"` denote the same file -/
+theorem file_name_alias (n d : Str) (hn : n ≠ []) (h : n.drop (n.length - 5) ≠ ['.', 'd', 'a', 't', 'a']) :
+    getFilePath (n ++ ['.', 'd', 'a', 't', 'a']) d = getFilePath n d :=
+  getFilePath_alias n d hn h
+
 /-- **overwrite_guard.**  `save_operator` without `allow_overwrite` on an existing file raises and
 (returning an error) leaves the file system as it was. -/
 theorem overwrite_guard (tol : Rat) (fs : FS) (cls : Cls) (A : List Entry) (name dir path : Str) (plain : Bool)
